@@ -30,6 +30,10 @@ def model(run, thorough):
     for F in range(0, S * C):
         r = vlib.tlc_ok(vlib.run_tlc("WorkflowFast", fcfg(W, S, C, F=F, live=True), timeout=1800), "WorkflowFast FailAt=%d" % F)
         run.add_tlc(r, "WorkflowFast W=%d S=%d C=%d FailAt=%d safety+liveness" % (W, S, C, F))
+    vlib.coverage_audit(run, "WorkflowFast", [fcfg(2, 3, 2, F=0), fcfg(2, 3, 2, F=3), fcfg(2, 3, 2, F=5)], ["ReadOK", "ReadFail", "Lock", "Unlock", "ErrDone", "Done", "MainDecide", "Exit"])
+    vlib.coverage_audit(run, "Workflow", ["CONSTANTS S=3 C=2 FailAt=3 ErrWithData=TRUE\nSPECIFICATION Spec\nCHECK_DEADLOCK FALSE\n",
+                                          "CONSTANTS S=3 C=2 FailAt=99 ErrWithData=FALSE\nSPECIFICATION Spec\nCHECK_DEADLOCK FALSE\n",
+                                          "CONSTANTS S=3 C=2 FailAt=2 ErrWithData=FALSE\nSPECIFICATION Spec\nCHECK_DEADLOCK FALSE\n"], ["ReadOK", "ReadFail", "Round", "Decide"])
     r = vlib.run_tlc("WorkflowFast", fcfg(2, 3, 2, F=3, rf="FALSE", lk="FALSE", de="FALSE", se="FALSE", live=True, inv=False), timeout=600)
     if not (r.violated and "Temporal" in str(r.violated)):
         raise vlib.InfraError("vacuity guard: as-is protocol with a failing source should violate Terminates, got %s" % r.violated)
